@@ -555,10 +555,11 @@ type writeSet struct {
 	compBases map[string]map[types.Object]bool // comps written only through these local bases
 	compWide  map[string]bool                  // comps written through something else too
 	compFresh map[string]bool                  // comps written by allocations only (append, make, new, literals)
+	node      ast.Node                         // the statement(s) analysed
 }
 
 func (fv *FV) writesOf(n ast.Node) *writeSet {
-	ws := &writeSet{vars: map[types.Object]bool{}, heapComps: map[string]bool{}, compBases: map[string]map[types.Object]bool{}, compWide: map[string]bool{}, compFresh: map[string]bool{}}
+	ws := &writeSet{vars: map[types.Object]bool{}, heapComps: map[string]bool{}, compBases: map[string]map[types.Object]bool{}, compWide: map[string]bool{}, compFresh: map[string]bool{}, node: n}
 	addComps := func(cs []string, all bool) {
 		if all {
 			ws.heapAll = true
@@ -789,6 +790,17 @@ func (fv *FV) havocWrites(e *Env, ws *writeSet) {
 			if cur := e.vars[o]; cur.K == kMap {
 				e.vars[o] = fv.freshLocalMap(o.Type().Underlying().(*types.Map), o.Name())
 				continue
+			}
+			if cur := e.vars[o]; cur.K == kSlice {
+				if p, ok := e.private[cur.T.S]; ok && ws.node != nil && fv.onlyLocalSliceUses(ws.node, o) {
+					// the loop only appends to / reads this local slice: at every iteration its
+					// backing array is one this function allocated and never handed out
+					nv := fv.freshValue(o.Type(), o.Name())
+					e.private[nv.T.S] = privArr{ref: nv.T, comp: p.comp, sort: p.sort}
+					fv.s.assume(implies(e.pc, or(eq(nv.T, tNull), not(sel(fv.entry.alloc, fv.rootOf(nv.T))))))
+					e.vars[o] = nv
+					continue
+				}
 			}
 			e.vars[o] = fv.freshValue(o.Type(), o.Name())
 		}
@@ -1240,18 +1252,9 @@ func (fv *FV) forStmt(e *Env, s *ast.ForStmt, label string) {
 	}
 	ls, ord := fv.loopSpec(s)
 	fv.checkInvariants(e, ls, ord, "entry", s)
-	ws := fv.writesOf(s.Body)
-	if s.Post != nil {
-		w2 := fv.writesOf(s.Post)
-		for o := range w2.vars {
-			ws.vars[o] = true
-		}
-		ws.heapAll = ws.heapAll || w2.heapAll
-	}
-	if s.Cond != nil && hasCall(s.Cond) {
-		w3 := fv.writesOf(s.Cond)
-		ws.heapAll = ws.heapAll || w3.heapAll
-	}
+	// everything the loop may write: body, post statement and condition (calls in
+	// them write the heap as well); the init statement has already been executed
+	ws := fv.writesOf(&ast.ForStmt{For: s.For, Cond: s.Cond, Post: s.Post, Body: s.Body})
 	fv.havocWrites(e, ws)
 	fv.assumeInvariants(e, ls)
 	head := e.clone()
@@ -1511,4 +1514,82 @@ func (fv *FV) genericLoop(e *Env, s *ast.RangeStmt, label string) {
 	back := fv.mergeEnvs(append(fr.continues, body))
 	fv.checkInvariants(back, ls, ord, "step", s)
 	*e = *fv.mergeEnvs(append(fr.breaks, exit))
+}
+
+// onlyLocalSliceUses reports whether every use of the local slice variable o
+// inside n is one of: v = append(v, ...), len(v), cap(v), v[i] (read or write
+// of an element), `range v`. Any other use may hand the backing array out.
+func (fv *FV) onlyLocalSliceUses(n ast.Node, o types.Object) bool {
+	ok := true
+	var visit func(x ast.Node, parentOK bool)
+	isO := func(x ast.Expr) bool {
+		id, isId := ast.Unparen(x).(*ast.Ident)
+		return isId && fv.info.ObjectOf(id) == o
+	}
+	ast.Inspect(n, func(x ast.Node) bool {
+		if !ok || x == nil {
+			return false
+		}
+		switch y := x.(type) {
+		case *ast.FuncLit:
+			ok = false
+			return false
+		case *ast.AssignStmt:
+			// v = append(v, a, b): fine if the appended values do not mention v
+			if len(y.Lhs) == 1 && len(y.Rhs) == 1 && isO(y.Lhs[0]) {
+				if c, isCall := ast.Unparen(y.Rhs[0]).(*ast.CallExpr); isCall {
+					if id, isId := ast.Unparen(c.Fun).(*ast.Ident); isId && id.Name == "append" && len(c.Args) >= 1 && isO(c.Args[0]) && !c.Ellipsis.IsValid() {
+						for _, a := range c.Args[1:] {
+							if mentions(fv, a, o) {
+								ok = false
+							}
+						}
+						return false
+					}
+				}
+			}
+		case *ast.CallExpr:
+			if id, isId := ast.Unparen(y.Fun).(*ast.Ident); isId && (id.Name == "len" || id.Name == "cap") && len(y.Args) == 1 && isO(y.Args[0]) {
+				return false
+			}
+		case *ast.IndexExpr:
+			if isO(y.X) {
+				if mentions(fv, y.Index, o) {
+					ok = false
+				}
+				return false
+			}
+		case *ast.RangeStmt:
+			if isO(y.X) {
+				// the body is still inspected
+				if y.Key != nil && mentions(fv, y.Key, o) || y.Value != nil && mentions(fv, y.Value, o) {
+					ok = false
+				}
+				if y.Body != nil {
+					if !fv.onlyLocalSliceUses(y.Body, o) {
+						ok = false
+					}
+				}
+				return false
+			}
+		case *ast.Ident:
+			if fv.info.ObjectOf(y) == o {
+				ok = false // any other mention
+			}
+		}
+		return true
+	})
+	_ = visit
+	return ok
+}
+
+func mentions(fv *FV, x ast.Node, o types.Object) bool {
+	found := false
+	ast.Inspect(x, func(n ast.Node) bool {
+		if id, ok := n.(*ast.Ident); ok && fv.info.ObjectOf(id) == o {
+			found = true
+		}
+		return !found
+	})
+	return found
 }
